@@ -358,6 +358,11 @@ impl ReqAlphabet {
             cur = next;
         }
         // pre-releases of the range bounds sort *before* the bound (semver precedence)
+        // a segment of three dots is an ordinary segment (only "." and ".." are refused)
+        for p in [vec!["..."], vec!["a", "..."], vec!["...", "a"]] {
+            let q: Vec<String> = p.iter().map(|x| x.to_string()).collect();
+            paths.push((format!("/{}", q.join("/")), q));
+        }
         let versions = ["0.5.0", "1.0.0-alpha", "1.0.0", "1.5.0", "2.0.0-rc.1", "2.0.0", "2.5.0", "3.0.0-0", "3.0.0", "3.5.0"]
             .iter()
             .map(|v| {
